@@ -12,7 +12,8 @@ from engine import Case, enc, ShardStats, get_driver
 from model import Opt, Schema
 
 PID = 'C17'
-R1 = Schema('R1', [Opt('int', 'i', '', 0), Opt('func', 'include', '', None, 'i')])
+R1 = Schema('R1', [Opt('int', 'i', '', 0), Opt('func', 'include', '', None, 'i'),
+                   Opt('sec', 'sec', '', sub=[Opt('func', 'include', '', None, 'i'), Opt('int', 'i', '', 0)])])      # include from inside a section that exists since cfg_init
 POOL = ['d1', 'd2', 'nodir', 'd1', '~/d3', '~alice/d4']          # index 3 = d1 again
 DIRS = ['d1', 'd2', 'h/me/d3', 'h/alice/d4']
 MARK = {'d1': 1, 'd2': 2, 'h/me/d3': 3, 'h/alice/d4': 4}
@@ -120,8 +121,18 @@ def build_case(world, seq, fill, parse_names):
         else:
             t = world.tilde(nm)
             r = t if (t != '' and world.isfile(t)) else None
-        for via in ('parse', 'include'):
+        for via in ('parse', 'include', 'include-in-section'):
             lines.append('setint A %s 0' % enc('i'))
+            if via == 'include-in-section':
+                if '"' in nm or '\\' in nm:
+                    continue
+                lines[-1] = 'setint A %s 0' % enc('sec|i')
+                lines.append('parse_buf A ' + enc('sec { include("%s") }' % nm))
+                want_rc = 'r parse_buf %d' % (0 if r else 1)
+                lines.append('get A %s int 0' % enc('sec|i'))
+                want_val = 'r get %d' % (world.marker(r) if r else 0)
+                exp.append(('include', nm, 'SAME-AS-PARSE' if unspec else (want_rc, want_val)))
+                continue
             if via == 'parse':
                 lines.append('parse A ' + enc(nm))
                 want_rc = 'r parse %d' % (0 if r else -1)
